@@ -2,7 +2,9 @@ package main
 
 import (
 	"context"
+	"errors"
 	"fmt"
+	"io"
 	"math/rand"
 	"strconv"
 	"strings"
@@ -157,20 +159,23 @@ func runDCase(lg *gate.Log, idx int, c DCase) {
 			if err != nil {
 				return "open-error"
 			}
-			for it := 0; it <= c.N+2; it++ {
+			total := 0
+			for total <= c.N {
 				ents, err := dr.Readdir(ctx, k)
+				if len(ents) == 0 && (err == nil || errors.Is(err, io.EOF)) {
+					return "ok" // the end of the directory (the Directory interface documents io.EOF here)
+				}
 				if err != nil {
 					return "err"
-				}
-				if len(ents) == 0 {
-					return "ok"
 				}
 				pg := []int{}
 				for _, e := range ents {
 					pg = append(pg, nameID(e.FileName()))
 				}
 				pages = append(pages, pg)
+				total += len(ents)
 			}
+			// more entries than the directory has members and still not at the end
 			return "endless"
 		})
 		lg.Emit(gate.Event{"ev": "readdir", "case": idx, "k": k, "res": r, "pages": pages})
